@@ -814,6 +814,61 @@ def build (env : OpTable) (flatten : Bool) : OpExpr → Except PyExc Spec
     | .error e => .error e
     | .ok sa => applyInv env sa
 
+/-! ### operands that are objects which exist already; programs over spec objects
+
+  `base = (M > 0) & (M < 100); glom(5, base); ext = base & (M < 3); glom(5, ext)`:
+  a statement binds the object an operator expression evaluates to, later expressions
+  take that very OBJECT as an operand (`use i`), evaluations happen in between.  The
+  heap of spec objects is a list of `Spec` values: `_Bool`, `Not`, `_MExpr`, … write
+  their attributes only in `__init__` (facts obligation `c10_specs_immutable`), the
+  operators read `children` / `default` and build a new object, and `glomit` reads
+  only — so an evaluation step leaves the heap as it is, and an operator sees of its
+  operand exactly the `Spec` value it was built as. -/
+
+inductive OpExprX where
+  | leaf (s : Spec)
+  | use (i : Nat)              -- the object bound by the i-th `bind` step
+  | band (a b : OpExprX)
+  | bor (a b : OpExprX)
+  | inv (a : OpExprX)
+  deriving Repr, Inhabited
+
+/-- every `use i` replaced by the expression `f i` -/
+def OpExprX.subst (f : Nat → OpExpr) : OpExprX → OpExpr
+  | .leaf s => .leaf s
+  | .use i => f i
+  | .band a b => .band (a.subst f) (b.subst f)
+  | .bor a b => .bor (a.subst f) (b.subst f)
+  | .inv a => .inv (a.subst f)
+
+def OpExprX.uses : OpExprX → List Nat
+  | .leaf _ => []
+  | .use i => [i]
+  | .band a b | .bor a b => a.uses ++ b.uses
+  | .inv a => a.uses
+
+def OpExprX.leaves : OpExprX → List Spec
+  | .leaf s => [s]
+  | .use _ => []
+  | .band a b | .bor a b => a.leaves ++ b.leaves
+  | .inv a => a.leaves
+
+/-- one statement of a program -/
+inductive Step where
+  | bind (e : OpExprX)          -- `x_n = e`   (n = number of objects bound so far)
+  | eval (i : Nat) (t : V)      -- `glom(t, Match(x_i))`
+  deriving Repr, Inhabited
+
+/-- the i-th object of the heap (a name that is not bound does not occur in a decoded program) -/
+def objAt (objs : List Spec) (i : Nat) : Spec := objs.getD i .mtype
+
+/-- the expression an earlier statement bound, with its own uses inlined -/
+def defAt (defs : List OpExpr) (i : Nat) : OpExpr := defs.getD i (.leaf .mtype)
+
+/-- `x_n = e` on the heap `objs`: the operators are applied to the objects themselves -/
+def bindObj (tbl : OpTable) (objs : List Spec) (e : OpExprX) : Except PyExc Spec :=
+  build tbl true (e.subst (fun i => .leaf (objAt objs i)))
+
 /-! ### constructor errors (inner expressions first, left to right) -/
 
 /- can the spec object be hashed (used as a dict key / set member)?  lists, sets, dicts are
